@@ -1,13 +1,15 @@
 /-
-  Hs.Lemmas.NsSpec — the namespace queries of Hs.Model.Ns against the specification graph.
+  Hs.Lemmas.NsSpec — the namespace queries of Hs.Model.Ns against the specification graph, for EVERY defs grid
+  (no acyclicity hypothesis: the traversals expand a def once, `fuelFor g = |defs| + 1` iterations suffice).
 -/
 import Hs.Lemmas.NsGraph
 namespace Hs.Ns
 open Relation
 
-theorem fuelFor_ge (g : Defs) : (totalIs g + 1) ^ g.length ≤ fuelFor g := by
+theorem fuelFor_ge (g : Defs) : (Names g).length + 1 ≤ fuelFor g := by
   unfold fuelFor
-  exact Nat.pow_le_pow_right (by omega) (by omega)
+  rw [length_names]
+  exact Nat.le_refl _
 
 theorem tg_mono {α : Type} {r p : α → α → Prop} (h : ∀ a b, r a b → p a b) {a b : α}
     (hab : TransGen r a b) : TransGen p a b := TransGen.mono h a b hab
@@ -35,39 +37,32 @@ theorem raw_transGen_defined {g : Defs} {a b : Name} (h : TransGen (RawEdge g) a
 section
 variable (rows : List Row)
 
-/-- `all_supertypes_of` -/
-theorem allSupertypesOf_spec (hac : Acyclic (make rows).defs) (fuel : Nat)
-    (hf : fuelFor (make rows).defs ≤ fuel) (s : Name) :
+/-- `all_supertypes_of`, on every graph: ends within `fuelFor` and returns the strict `Edge` closure -/
+theorem allSupertypesOf_spec (fuel : Nat) (hf : fuelFor (make rows).defs ≤ fuel) (s : Name) :
     ∃ res, allSupertypesOf fuel (make rows) s = .ok res ∧ res.Nodup ∧
       ∀ x, x ∈ res ↔ TransGen (Edge (make rows).defs) s x := by
-  obtain ⟨r, hr, hK⟩ := hac
-  have hr' : ∀ a b, b ∈ supertypesOf (make rows).defs a → r b < r a :=
-    fun a b hb => hr a b (edge_raw (mem_supertypesOf.1 hb))
-  have hB : ∀ a, (supertypesOf (make rows).defs a).length + 1 ≤ totalIs (make rows).defs + 1 :=
-    fun a => Nat.succ_le_succ (length_supertypesOf_le _ a)
-  obtain ⟨res, h1, h2, h3⟩ := wl_spec (supertypesOf (make rows).defs) false r _ hr' hB _ hK fuel
-    (Nat.le_trans (fuelFor_ge _) hf) s
+  obtain ⟨res, h1, h2, h3⟩ := wl_spec (supertypesOf (make rows).defs) false (Names (make rows).defs)
+    (supertypesOf_in_names _) fuel (Nat.le_trans (fuelFor_ge _) hf) s
   refine ⟨res, h1, h2, fun x => ?_⟩
   rw [h3 x]
   exact transGen_congr (fun a b => mem_supertypesOf) s x
 
-/-- `all_subtypes_of` (`s` need not be defined: a symbol that is only mentioned in `is` lists has subtypes) -/
-theorem allSubtypesOf_spec (hac : Acyclic (make rows).defs) (fuel : Nat)
-    (hf : fuelFor (make rows).defs ≤ fuel) (s : Name) :
+/-- the same for a namespace that did not come out of `make` (only the `defs` map is read) -/
+theorem allSupertypesOf_spec_ns (ns : Ns) (fuel : Nat) (hf : fuelFor ns.defs ≤ fuel) (s : Name) :
+    ∃ res, allSupertypesOf fuel ns s = .ok res ∧ res.Nodup ∧ ∀ x, x ∈ res ↔ TransGen (Edge ns.defs) s x := by
+  obtain ⟨res, h1, h2, h3⟩ := wl_spec (supertypesOf ns.defs) false (Names ns.defs)
+    (supertypesOf_in_names _) fuel (Nat.le_trans (fuelFor_ge _) hf) s
+  refine ⟨res, h1, h2, fun x => ?_⟩
+  rw [h3 x]
+  exact transGen_congr (fun a b => mem_supertypesOf) s x
+
+/-- `all_subtypes_of`, on every graph (`s` need not be defined: a symbol that is only mentioned in `is` lists
+has subtypes) -/
+theorem allSubtypesOf_spec (fuel : Nat) (hf : fuelFor (make rows).defs ≤ fuel) (s : Name) :
     ∃ res, allSubtypesOf fuel (make rows) s = .ok res ∧ res.Nodup ∧
       ∀ x, x ∈ res ↔ TransGen (RawEdge (make rows).defs) x s := by
-  obtain ⟨r, hr, hK⟩ := hac
-  have hr' : ∀ a b, b ∈ subtypesOf (make rows) a →
-      (make rows).defs.length - r b < (make rows).defs.length - r a := by
-    intro a b hb
-    have h1 := hr b a ((mem_subtypesOf rows a b).1 hb)
-    have h2 := hK b
-    omega
-  have hB : ∀ a, (subtypesOf (make rows) a).length + 1 ≤ totalIs (make rows).defs + 1 :=
-    fun a => Nat.succ_le_succ (length_subtypesOf_le rows a)
-  obtain ⟨res, h1, h2, h3⟩ := wl_spec (subtypesOf (make rows)) true
-    (fun a => (make rows).defs.length - r a) _ hr' hB (make rows).defs.length (fun a => Nat.sub_le _ _) fuel
-    (Nat.le_trans (fuelFor_ge _) hf) s
+  obtain ⟨res, h1, h2, h3⟩ := wl_spec (subtypesOf (make rows)) true (Names (make rows).defs)
+    (subtypesOf_in_names rows) fuel (Nat.le_trans (fuelFor_ge _) hf) s
   refine ⟨res, h1, h2, fun x => ?_⟩
   rw [h3 x]
   have hsw : TransGen (Succ (subtypesOf (make rows))) s x ↔
@@ -76,21 +71,19 @@ theorem allSubtypesOf_spec (hac : Acyclic (make rows).defs) (fuel : Nat)
   rw [hsw, transGen_swap]
 
 /-- for a defined `s` the subtypes are the `Edge` ancestors -/
-theorem allSubtypesOf_spec_defined (hac : Acyclic (make rows).defs) (fuel : Nat)
-    (hf : fuelFor (make rows).defs ≤ fuel) (s : Name) (hs : defined (make rows).defs s = true) :
+theorem allSubtypesOf_spec_defined (fuel : Nat) (hf : fuelFor (make rows).defs ≤ fuel) (s : Name) (hs : defined (make rows).defs s = true) :
     ∃ res, allSubtypesOf fuel (make rows) s = .ok res ∧
       ∀ x, x ∈ res ↔ TransGen (Edge (make rows).defs) x s := by
-  obtain ⟨res, h1, _, h3⟩ := allSubtypesOf_spec rows hac fuel hf s
+  obtain ⟨res, h1, _, h3⟩ := allSubtypesOf_spec rows fuel hf s
   refine ⟨res, h1, fun x => ?_⟩
   rw [h3 x]
   exact ⟨fun h => raw_transGen_defined h hs, tg_mono (fun a b => edge_raw)⟩
 
 /-- `inheritance` = the def itself and all its supertypes; empty for an undefined symbol -/
-theorem inheritance_spec (hac : Acyclic (make rows).defs) (fuel : Nat)
-    (hf : fuelFor (make rows).defs ≤ fuel) (s : Name) :
+theorem inheritance_spec (fuel : Nat) (hf : fuelFor (make rows).defs ≤ fuel) (s : Name) :
     ∃ res, inheritance fuel (make rows) s = .ok res ∧
       ∀ x, x ∈ res ↔ (defined (make rows).defs s = true ∧ ReflTransGen (Edge (make rows).defs) s x) := by
-  obtain ⟨all, h1, _, h3⟩ := allSupertypesOf_spec rows hac fuel hf s
+  obtain ⟨all, h1, _, h3⟩ := allSupertypesOf_spec rows fuel hf s
   unfold inheritance
   by_cases hs : defined (make rows).defs s = true
   · simp only [hs, if_true, h1]
@@ -108,12 +101,11 @@ theorem inheritance_eq (fuel : Nat) (ns : Ns) (s : Name) (all : List Name)
   simp [hs, h]
 
 /-- `fits` -/
-theorem fits_spec (hac : Acyclic (make rows).defs) (fuel : Nat)
-    (hf : fuelFor (make rows).defs ≤ fuel) (a b : Name) :
+theorem fits_spec (fuel : Nat) (hf : fuelFor (make rows).defs ≤ fuel) (a b : Name) :
     ∃ v, fits fuel (make rows) a b = .ok v ∧
       (v = true ↔ (defined (make rows).defs a = true ∧ defined (make rows).defs b = true ∧
         ReflTransGen (Edge (make rows).defs) a b)) := by
-  obtain ⟨inh, h1, h2⟩ := inheritance_spec rows hac fuel hf a
+  obtain ⟨inh, h1, h2⟩ := inheritance_spec rows fuel hf a
   unfold fits
   by_cases hb : defined (make rows).defs b = true
   · simp only [hb, if_true, h1]
@@ -194,8 +186,7 @@ theorem mem_seeds (r : Rec) (t : Name) :
     · exact Or.inl h
     · exact Or.inr ⟨h1, h2, fun p hp => (mem_markerTags _ _ _).2 (h3 p hp)⟩
 
-theorem findSupertypesFromDefs_spec (hac : Acyclic (make rows).defs) (fuel : Nat)
-    (hf : fuelFor (make rows).defs ≤ fuel) :
+theorem findSupertypesFromDefs_spec (fuel : Nat) (hf : fuelFor (make rows).defs ≤ fuel) :
     ∀ (ds acc : List Name), ∃ res, findSupertypesFromDefs fuel (make rows) ds acc = .ok res ∧
       ∀ x, x ∈ res ↔ (x ∈ acc ∨ ∃ d ∈ ds, ReflTransGen (Edge (make rows).defs) d x) := by
   intro ds
@@ -203,7 +194,7 @@ theorem findSupertypesFromDefs_spec (hac : Acyclic (make rows).defs) (fuel : Nat
   | nil => intro acc; exact ⟨acc, rfl, fun x => by simp⟩
   | cons d ds ih =>
     intro acc
-    obtain ⟨all, h1, _, h3⟩ := allSupertypesOf_spec rows hac fuel hf d
+    obtain ⟨all, h1, _, h3⟩ := allSupertypesOf_spec rows fuel hf d
     obtain ⟨res, h4, h5⟩ := ih (extendSet (insertSet d acc) all)
     refine ⟨res, by simp only [findSupertypesFromDefs, h1]; exact h4, fun x => ?_⟩
     rw [h5 x, mem_extendSet, mem_insertSet, h3 x]
@@ -222,11 +213,10 @@ theorem findSupertypesFromDefs_spec (hac : Acyclic (make rows).defs) (fuel : Nat
         · exact Or.inr ⟨e, he, h⟩
 
 /-- `reflect`: the seeds and all their supertypes -/
-theorem reflect_spec (hac : Acyclic (make rows).defs) (fuel : Nat)
-    (hf : fuelFor (make rows).defs ≤ fuel) (r : Rec) :
+theorem reflect_spec (fuel : Nat) (hf : fuelFor (make rows).defs ≤ fuel) (r : Rec) :
     ∃ res, reflect fuel (make rows) r = .ok res ∧
       ∀ x, x ∈ res ↔ ∃ t, Seed (make rows).defs r t ∧ ReflTransGen (Edge (make rows).defs) t x := by
-  obtain ⟨res, h1, h2⟩ := findSupertypesFromDefs_spec rows hac fuel hf
+  obtain ⟨res, h1, h2⟩ := findSupertypesFromDefs_spec rows fuel hf
     (tagDefs (make rows) r ++ findConjuncts (make rows) (markerTags (make rows) r)) []
   refine ⟨res, h1, fun x => ?_⟩
   rw [h2 x]
@@ -235,8 +225,7 @@ theorem reflect_spec (hac : Acyclic (make rows).defs) (fuel : Nat)
   · rintro ⟨d, hd, h⟩; exact ⟨d, (mem_seeds rows r d).1 hd, h⟩
   · rintro ⟨d, hd, h⟩; exact ⟨d, (mem_seeds rows r d).2 hd, h⟩
 
-theorem anyFits_spec (hac : Acyclic (make rows).defs) (fuel : Nat)
-    (hf : fuelFor (make rows).defs ≤ fuel) (base : Name) :
+theorem anyFits_spec (fuel : Nat) (hf : fuelFor (make rows).defs ≤ fuel) (base : Name) :
     ∀ ds : List Name, ∃ v, anyFits fuel (make rows) base ds = .ok v ∧
       (v = true ↔ ∃ d ∈ ds, defined (make rows).defs d = true ∧ defined (make rows).defs base = true ∧
         ReflTransGen (Edge (make rows).defs) d base) := by
@@ -244,7 +233,7 @@ theorem anyFits_spec (hac : Acyclic (make rows).defs) (fuel : Nat)
   induction ds with
   | nil => exact ⟨false, rfl, by simp⟩
   | cons d ds ih =>
-    obtain ⟨v, h1, h2⟩ := fits_spec rows hac fuel hf d base
+    obtain ⟨v, h1, h2⟩ := fits_spec rows fuel hf d base
     obtain ⟨w, h3, h4⟩ := ih
     cases v with
     | true =>
@@ -271,13 +260,12 @@ theorem edge_target_defined {g : Defs} {a b : Name} (h : ReflTransGen (Edge g) a
   | tail _ hbc _ => exact hbc.choose_spec.2.2
 
 /-- `reflect(rec).fits(base)`, i.e. the filter term `^base`: some seed of the record fits `base` -/
-theorem reflFits_spec (hac : Acyclic (make rows).defs) (fuel : Nat)
-    (hf : fuelFor (make rows).defs ≤ fuel) (r : Rec) (base : Name) :
+theorem reflFits_spec (fuel : Nat) (hf : fuelFor (make rows).defs ≤ fuel) (r : Rec) (base : Name) :
     ∃ v, reflFits fuel (make rows) r base = .ok v ∧
       (v = true ↔ ∃ t, Seed (make rows).defs r t ∧ defined (make rows).defs base = true ∧
         ReflTransGen (Edge (make rows).defs) t base) := by
-  obtain ⟨res, h1, h2⟩ := reflect_spec rows hac fuel hf r
-  obtain ⟨v, h3, h4⟩ := anyFits_spec rows hac fuel hf base res
+  obtain ⟨res, h1, h2⟩ := reflect_spec rows fuel hf r
+  obtain ⟨v, h3, h4⟩ := anyFits_spec rows fuel hf base res
   refine ⟨v, by simp only [reflFits, h1]; exact h3, ?_⟩
   rw [h4]
   constructor
